@@ -272,7 +272,7 @@ def _keyed(repo, rep):
 def _nsstack(repo, rep):
     ci = repo.cls(PARSER + "ElementParser")
     st = ci.methods["visit_start_tag"]
-    text = " ".join(src(s) for s in st.node.body)
+    text = L.text(st.node, body_only=True)
     ok = text.count("self.namespaces.append(") == 1 and \
         text.count("self.index.append(") == 1
     rep.check(ok, "R18.3", st.qualname, "a start tag pushes exactly one "
@@ -282,7 +282,7 @@ def _nsstack(repo, rep):
               "the new map inherits the bindings in scope",
               construct="start-inherit", where=L.where(st))
     et = ci.methods["visit_empty_tag"]
-    text = " ".join(src(s) for s in et.node.body)
+    text = L.text(et.node, body_only=True)
     rep.check("self.namespaces.append" not in text and
               "self.index.append" not in text and
               "self.namespaces[-1].copy()" in text, "R18.3", et.qualname,
